@@ -62,6 +62,10 @@ func genOpaqueDyn(rng *rand.Rand, depth int, withObject bool) rc.DynV {
 			long := 2
 			vo.LongStr = &long
 		}
+		if rng.Intn(6) == 0 { // up to two strings / buffers whose length is within 4 of a power of two (28 .. 4100)
+			mid := 2
+			vo.MidStr = &mid
+		}
 		v := rc.GenValue(rng, t, vo)
 		return rc.DynV{T: t, V: fixDyn(rng, t, v)}
 	}
@@ -164,7 +168,17 @@ func checkDyn(c *wk.Ctx, stream string, i int, d rc.DynV, rng *rand.Rand, ctor b
 	// the same encoding (no trailer) through a stream that delivers it in small pieces and reports
 	// io.EOF together with the last piece, as the io.Reader contract allows
 	if len(want) <= 4096 {
-		fr := &fragReader{data: want, plan: planRandom(rng, 1+rng.Intn(9)), eofWithData: rng.Intn(3) != 0}
+		// (one time in two the stream goes on behind the value: a plain io.Reader - a socket, a pipe, a
+		// file - from which the next datum is read afterwards; nothing of it may be taken)
+		src := want
+		if rng.Intn(2) == 0 {
+			src = in
+			c.Count("decoded_from_a_stream_that_goes_on", 1)
+		}
+		fr := &fragReader{data: src, plan: planRandom(rng, 1+rng.Intn(9)), eofWithData: rng.Intn(3) != 0}
+		if rng.Intn(3) == 0 {
+			fr.plan = func(rem int) int { return rem } // gives as much as it is asked for
+		}
 		got2, err := value.NewValue(fr)
 		if err != nil {
 			c.Viol(stream, i, "decode=error/fragmented/"+dynClass(d.T), fmt.Sprintf("NewValue rejected a value's own encoding delivered in pieces (EOF with the last piece: %v): %v", fr.eofWithData, err), detail)
